@@ -260,6 +260,23 @@ pub fn generate(seed: u64, fault_free: bool) -> TypedOut {
                         nontrivial = true;
                         g.push("every-op-assign", Ex::OpAssign(true, Box::new(lv(&name)), fname, Box::new(int(1))), vec![])
                     }
+                    V::List(xs) if g.rng.chance(1, 2) => {
+                        // every-op-assign through a slice: the whole variable is written back and
+                        // must still fit its annotation
+                        let hi = g.rng.range(0, xs.len() as i64);
+                        let addend = g.rng.range(0, 10);
+                        nontrivial = true;
+                        g.push(
+                            "every-slice-op-assign",
+                            Ex::OpAssign(
+                                true,
+                                Box::new(Lv::Ident(name, vec![Ix::Slice(Some(int(0)), Some(int(hi)))])),
+                                "+".into(),
+                                Box::new(int(addend)),
+                            ),
+                            vec![],
+                        )
+                    }
                     V::List(xs) => {
                         let hi = xs.len() as i64;
                         g.push(
@@ -327,22 +344,38 @@ pub fn generate(seed: u64, fault_free: bool) -> TypedOut {
                         if !ill {
                             items.push(v2);
                         }
-                        g.push(
-                            "destructure-splat",
-                            Ex::Assign(
-                                false,
-                                Box::new(Lv::Seq(
-                                    vec![
-                                        lv(&name),
-                                        Lv::Splat(Box::new(Lv::Annot(Box::new(lv(&rest)), None))),
-                                        lv(&other),
-                                    ],
+                        if g.rng.chance(1, 2) {
+                            g.push(
+                                "destructure-splat",
+                                Ex::Assign(
                                     false,
-                                )),
-                                Box::new(Ex::List(items)),
-                            ),
-                            vec![],
-                        )
+                                    Box::new(Lv::Seq(
+                                        vec![
+                                            lv(&name),
+                                            Lv::Splat(Box::new(Lv::Annot(Box::new(lv(&rest)), None))),
+                                            lv(&other),
+                                        ],
+                                        false,
+                                    )),
+                                    Box::new(Ex::List(items)),
+                                ),
+                                vec![],
+                            )
+                        } else {
+                            // a splat followed by a defaulted target, as a lambda parameter list: the
+                            // default is used only when the items run out before that position
+                            let lam = Ex::Lambda(
+                                vec![
+                                    lv("pa"),
+                                    Lv::Splat(Box::new(lv("pr"))),
+                                    Lv::Default(Box::new(lv("pd")), Box::new(int(77))),
+                                ],
+                                Box::new(Ex::List(vec![var("pa"), var("pr"), var("pd")])),
+                            );
+                            let n_args = g.rng.below(5);
+                            let args: Vec<Ex> = (0..n_args).map(|k| int(k as i64 + 1)).collect();
+                            g.push("splat-then-default", Ex::Call(Box::new(lam), args), vec![])
+                        }
                     }
                     _ => {
                         // declaration with annotation spanning both names: `a, b : T = ...`
